@@ -58,7 +58,7 @@ def handle (cmd : String) (args : List Sx) : String :=
       | .error e => "err " ++ errName e
       | .ok toks =>
         let gl : Glob := { opts := o, tokens := toks }
-        s!"ok {stratName (strategyOf gl)} {toHex (toRegex o toks)} {if GlobDoc.okGlob (docOpts o) cs then 1 else 0} {if tokensValid toks then 1 else 0} {if simpleGlob o.be cs || okStarGlob o.be cs || okClassGlob o.be cs || okAltGlob o cs || okStarGlobP o.be cs then 1 else 0}"
+        s!"ok {stratName (strategyOf gl)} {toHex (toRegex o toks)} {if GlobDoc.okGlob (docOpts o) cs then 1 else 0} {if tokensValid toks then 1 else 0} {if simpleGlob o.be cs || okStarGlob o.be cs || okClassGlob o.be cs || okAltGlob o cs || okStarGlobP o.be cs then 1 else 0} {if GlobDoc.illegalDstar o.be cs then 1 else 0}"
   | "c12.set", [.list (.atom "globs" :: gs), .list (.atom "paths" :: ps)] =>
     match gs.mapM parseGlobSx, ps.mapM Sx.bytes? with
     | some gs, some ps =>
@@ -87,6 +87,15 @@ def handle (cmd : String) (args : List Sx) : String :=
       | none => "err"
       | some globs => "ok " ++ commaNats ((GlobSet.new globs).matchesCandidateInto (candidate p) buf)
     | _, _, _ => "bad-op"
+  | "c12.uchar", [ls, .list (.atom "members" :: ms), p] =>
+    -- the documentation's sentences about `?` and `[ab]` for characters beyond ASCII
+    match ls.bool?, ms.mapM Sx.nat?, p.bytes? with
+    | some ls, some ms, some p => if GlobDoc.docOneChar ls (some ms) p then "1" else "0"
+    | _, _, _ => "bad-op"
+  | "c12.uchar", [ls, .atom "any", p] =>
+    match ls.bool?, p.bytes? with
+    | some ls, some p => if GlobDoc.docOneChar ls none p then "1" else "0"
+    | _, _ => "bad-op"
   | "c12.cand", [p] =>
     match p.bytes? with
     | some p => let c := candidate p; s!"{toHex c.basename} {toHex c.ext}"
